@@ -345,6 +345,8 @@ func runC14(r *mon.Run) {
 			}
 		}
 	})
+	// results that are functions of the arguments alone do not depend on the process-wide system entropy stream
+	runDegradedEntropy(r, "c14", r.N(30, 400), "schnorrsign")
 }
 
 // yieldingReader hands out its bytes and then yields the processor a few times
